@@ -13,7 +13,7 @@ RULE = ('cases = (input string, configuration); exhaustive strings up to the bou
         'deletion / insertion / swap of generated valid abbreviations; random strings <= 40; all 16 syntaxes and option sets with '
         'BEM, comments, JSX, wrap text (string / list / empty), contexts, maxRepeat. Non-trivial = the call raised a parse error or '
         'returned a non-empty string; distinct by (config name, input)')
-ASSUMPTIONS = ['custom snippets of the configurations parse (a user table with empty alternatives, a bare colon, blanks ... is still a table: the sloppy-user-snippets configuration); an error position always refers to the input',
+ASSUMPTIONS = ['user tables range from well-formed over sloppy (empty alternatives, a bare colon, blanks: still a table) to broken (definitions that do not parse: a parse error is in order); an error position, when present, always refers to the input',
                'callbacks of the strict-callbacks configurations raise TypeError only when the LIBRARY breaks the callback contract (integer index, string placeholder, integer positions)',
                'repeat counts are bounded (single digit alphabet in the enumeration, maxRepeat <= 300 in the other workloads) and lorem word counts < 10^5: time and '
                'memory proportional to a count are not what is measured. Nesting is driven to 120 levels in D1; 400-2500 levels are D2 (open finding: RecursionError)',
@@ -64,6 +64,8 @@ MARKUP_CFGS = [
     ('xsl', {'syntax': 'xsl', 'options': dict(CMT)}),
     ('xml', {'syntax': 'xml', 'options': {'output.compactBoolean': True}}),
     ('vue', {'syntax': 'vue', 'context': {'name': 'ul'}}),
+    # definitions in the notation of Emmet 1 (`|` for the caret) or simply mistyped: errors of a DEFINITION are errors of the call, with a position (if any) in the input
+    ('broken-user-snippets', {'snippets': {'bq': 'blockquote>p|', 'a': 'a[href', 'li': 'li{', 'p': 'p>(', 'ul': 'ul>li*2>a|'}}),
     ('svelte', {'syntax': 'svelte'}),
     ('js', {'syntax': 'js', 'options': {'jsx.enabled': True, 'bem.enabled': True, 'comment.enabled': True}}),
     ('novars', {'variables': {}, 'snippets': USER_MARKUP_SNIPPETS}),
@@ -97,10 +99,13 @@ CSS_CFGS = [
     ('ctx-name-none', {'type': 'stylesheet', 'context': {'name': None}}),
     ('strict-callbacks', {'type': 'stylesheet', 'options': dict(STRICT), 'snippets': USER_CSS_SNIPPETS}),
     ('sloppy-user-snippets', {'type': 'stylesheet', 'snippets': SLOPPY_CSS_SNIPPETS}),
+    # a table with an entry the value grammar rejects (the legacy IE filter of many snippet collections): a parse error is in order - one that does not
+    # report a position INSIDE THE SNIPPET as if it were a position of the input
+    ('broken-user-snippet', {'type': 'stylesheet', 'snippets': {'op:ie': 'filter:progid:DXImageTransform.Microsoft.Alpha(Opacity=100)', 'foo': 'bar:10'}}),
 ]
 # syntax names must be complete: every known syntax appears in at least one configuration
-ENUM_MARKUP = ['bem-ctx-loose', 'text-url', 'html', 'jsx', 'text-list', 'text-str', 'text-empty', 'bem-ctx', 'comment', 'pug', 'haml', 'xsl', 'vue', 'novars', 'max1']
-ENUM_CSS = ['ctx-nameless', 'css', 'stylus', 'value-ctx', 'section-ctx', 'json', 'noskip', 'user-snippets', 'strict-callbacks']
+ENUM_MARKUP = ['broken-user-snippets', 'bem-ctx-loose', 'text-url', 'html', 'jsx', 'text-list', 'text-str', 'text-empty', 'bem-ctx', 'comment', 'pug', 'haml', 'xsl', 'vue', 'novars', 'max1']
+ENUM_CSS = ['broken-user-snippet', 'ctx-nameless', 'css', 'stylus', 'value-ctx', 'section-ctx', 'json', 'noskip', 'user-snippets', 'strict-callbacks']
 
 
 def describe(tier):
